@@ -9,8 +9,8 @@ import (
 
 // Leaf2 is one 2D leaf shape of the menu.
 type Leaf2 struct {
-	Name  string   // unique, human readable, replayable: constructor + parameters, e.g. "Box2D(2x1,r=0.25)@(-5,-5)"
-	Ctor  string   // exported constructor at the root of the expression, e.g. "Box2D", "obj.Hex2D"
+	Name  string // unique, human readable, replayable: constructor + parameters, e.g. "Box2D(2x1,r=0.25)@(-5,-5)"
+	Ctor  string // exported constructor at the root of the expression, e.g. "Box2D", "obj.Hex2D"
 	Build func() (sdf.SDF2, error)
 	Exact bool // C03 claims Evaluate is the exact Euclidean signed distance (circle, (rounded) box, line, polygon and rigid transforms of them)
 	Lip   bool // the shape is 1-Lipschitz (never overestimates distance)
